@@ -303,30 +303,34 @@ theorem unordLoop_congr (h : SimP P p' p) (sep : Option Nat) : ∀ k todo acc fi
         | fuel => fin h2
         | bad => fin h2
 
-theorem commentsLoop_congr (sim : Similar P g g') (h : SimP P p' p) : ∀ k,
-    SimF P (commentsLoop g' p' k) (commentsLoop g p k) := by
+theorem commentsIter_congr (sim : Similar P g g') (h : SimP P p' p) (cm : Nat) : ∀ k,
+    SimF P (commentsIter g' p' cm k) (commentsIter g p cm k) := by
   intro k
   induction k with
-  | zero => intro s hs; simp only [commentsLoop]; fin hs
+  | zero => intro s hs; simp only [commentsIter]; fin hs
   | succ k ih =>
     intro s hs
-    simp only [commentsLoop, sim.comments]
-    cases g.comments with
-    | none => fin hs
-    | some cm =>
+    simp only [commentsIter]
+    obtain ⟨h1, h2⟩ := h cm s hs
+    rw [h1]
+    generalize p cm s = r at h2 ⊢
+    obtain ⟨r, s2⟩ := r
+    cases r with
+    | ok v =>
       dsimp only
-      obtain ⟨h1, h2⟩ := h cm s hs
-      rw [h1]
-      generalize p cm s = r at h2 ⊢
-      obtain ⟨r, s2⟩ := r
-      cases r with
-      | ok v =>
-        dsimp only
-        rw [skipWs_congr sim h2]
-        exact ih _ (by split <;> exact h2)
-      | «nomatch» => fin h2
-      | fuel => fin h2
-      | bad => fin h2
+      rw [skipWs_congr sim h2]
+      exact ih _ (by split <;> exact h2)
+    | «nomatch» => fin h2
+    | fuel => fin h2
+    | bad => fin h2
+
+theorem commentsLoop_congr (sim : Similar P g g') (h : SimP P p' p) (k : Nat) :
+    SimF P (commentsLoop g' p' k) (commentsLoop g p k) := by
+  intro s hs
+  simp only [commentsLoop, sim.comments]
+  cases g.comments with
+  | none => fin hs
+  | some cm => exact commentsIter_congr sim h cm k s hs
 
 theorem matchNode_congr (sim : Similar P g g') {pc pc' : PState → Res × PState} (hpc : SimF P pc' pc)
     (id : Nat) (nd : Node) : SimF P (matchNode g' pc' id nd) (matchNode g pc id nd) := by
